@@ -157,7 +157,20 @@ fn compare_inherent_items(first: &[syn::ImplItem], second: &[syn::ImplItem]) {
         item => abort!(item, "Not supported"),
     });
 
-    for first_item in first {
+    // NOTE: An item may be given more than once (e.g. once per `cfg` alternative)
+    let mut first_items = IndexMap::new();
+    first.iter().for_each(|item| {
+        let key = match item {
+            syn::ImplItem::Const(item) => (0, &item.ident),
+            syn::ImplItem::Type(item) => (1, &item.ident),
+            syn::ImplItem::Fn(item) => (2, &item.sig.ident),
+            item => abort!(item, "Not supported"),
+        };
+
+        first_items.insert(key, item);
+    });
+
+    for first_item in first_items.into_values() {
         match first_item {
             syn::ImplItem::Const(first_item) => {
                 if let Some(second_item) = second_consts.swap_remove(&first_item.ident) {
